@@ -19,6 +19,7 @@ EXPLANATION = ("Shutdown paths. R1: the exit drain can leave its loop only on th
 NOT_DECIDED = ("Every crash point / process-exit ordering (static destruction order, async-signal-safety of the handler body), that "
                "the OS delivers the signal to a thread that logged before.")
 ASSUMPTIONS = ["C03/C06 for what one drain iteration and flush_log do"]
+from rules.c02 import cmp_sides
 BW = "quill::detail::BackendWorker::"
 SIGNUM = {"SIGTERM": 15, "SIGINT": 2, "SIGABRT": 6, "SIGFPE": 8, "SIGILL": 4, "SIGSEGV": 11, "SIGALRM": 14}
 
@@ -36,6 +37,7 @@ def run(ctx):
         c02.check_empty_semantics(ctx, bn, rule="C07.R1e")
         r3_r5(ctx, facts, cfg)
         r4(ctx, facts, cfg)
+        r6_api_layer(ctx, facts, cfg)
 
 
 def r1(ctx, facts, cfg):
@@ -232,6 +234,10 @@ def r3_r5(ctx, facts, cfg):
         raise AnalysisBroken("both Backend::start overloads expected, found arities %s" % sorted(sigs))
 
 
+def other_(lab):
+    return "F" if lab == "T" else "T"
+
+
 def r4(ctx, facts, cfg):
     fns = facts.need("quill::detail::on_signal", cfg, floor=4)
     for f in fns:
@@ -255,10 +261,80 @@ def r4(ctx, facts, cfg):
         raises = [p for p in cpos(f, r"^(std::)?raise$") if p in front]
         if not exits or not raises:
             raise AnalysisBroken(site + ": exit/raise on the logging branch not found")
-        ok = bool(flush) and not g.exists_path([t], exits + raises, avoid_nodes=flush, avoid_edges=[(bid, nl)])
+        ok = bool(flush) and not g.exists_path([t], exits + raises + [g.exit_node], avoid_nodes=flush, avoid_edges=[(bid, nl)])
         ctx.ob("C07.R4a", site + ":flush-before-dying", ok,
-               "with a logger available, every path to std::exit / std::raise passes flush_log (earlier statements and the notice are in "
-               "the destination before the process ends)", fn=f)
+               "with a logger available, every path to std::exit / std::raise — and to the handler's return, when re-raising is switched "
+               "off — passes flush_log (earlier statements and the notice are in the destination before the process ends or goes on)", fn=f)
+        # R4m: the handler logs and waits for the backend only where that can work: on a thread that is not the backend worker, while a
+        # backend worker exists (flush_log from the backend thread waits for itself; without a backend nobody ever sets the flag)
+        bt = [vid for vid, i in inits.items() if isnode(i) and any((atomic_op(x) or {}).get("kind") == "load" and field_name(atomic_op(x)["obj"]) == "backend_thread_id" for x in walk(i))]
+        ct = [vid for vid, i in inits.items() if isnode(i) and any(is_call(x, r"get_thread_id$") for x in walk(i))]
+        none_e, same_e = [], []
+        for b2, blk in g.blocks.items():
+            c = g.term_cond(b2)
+            if c is None:
+                continue
+            nc = norm_cmp(c)
+            cc = peel_not(c)
+            if not (nc and nc[0] in ("==", "!=") and isnode(cc) and cc["k"] == "BinaryOperator"):
+                continue
+            l_, r_ = var_ref(strip(cc["lhs"], casts=True)), var_ref(strip(cc["rhs"], casts=True))
+            if bt and ((l_ in bt and const_val(cc["rhs"]) == 0) or (r_ in bt and const_val(cc["lhs"]) == 0)):
+                none_e.append((b2, "T" if nc[0] == "==" else "F"))      # label of 'no backend thread'
+            elif bt and ct and {l_, r_} == {bt[0], ct[0]}:
+                same_e.append((b2, "T" if nc[0] == "==" else "F"))      # label of 'this is the backend thread'
+        talk = flush + logs
+        ok = bool(none_e) and bool(same_e) and bool(talk) and \
+            not g.exists_path([g.entry_node], talk, avoid_edges=[(b2, other_(l2)) for (b2, l2) in none_e]) and \
+            not g.exists_path([g.entry_node], talk, avoid_edges=[(b2, other_(l2)) for (b2, l2) in same_e])
+        ctx.ob("C07.R4m", site + ":logs-only-off-the-backend-thread", ok,
+               "logging and flush_log are reached only through the 'a backend thread exists' and the 'this is not the backend thread' "
+               "outcomes (%d / %d tests)" % (len(none_e), len(same_e)), fn=f)
+        # R4n: only the first thread to enter goes on; every later one is parked before it can log, exit or re-raise
+        first_e = []
+        lockv = [vid for vid, i in inits.items() if isnode(i) and any((atomic_op(x) or {}).get("kind") == "rmw" and field_name(atomic_op(x)["obj"]) == "lock" for x in walk(i))]
+        for b2, blk in g.blocks.items():
+            c = g.term_cond(b2)
+            if c is None:
+                continue
+            nc = norm_cmp(c)
+            cc = peel_not(c)
+            if nc and nc[0] in ("==", "!=") and isnode(cc) and cc["k"] == "BinaryOperator" and lockv and \
+                    ((var_ref(strip(cc["lhs"], casts=True)) in lockv and const_val(cc["rhs"]) == 0) or (var_ref(strip(cc["rhs"], casts=True)) in lockv and const_val(cc["lhs"]) == 0)):
+                first_e.append((b2, "T" if nc[0] == "==" else "F"))     # label of 'first to enter'
+        park = cpos(f, r"^pause$") + cpos(f, r"sleep_for")
+        rmw1 = [n for n in f.walk() if (atomic_op(n) or {}).get("kind") == "rmw" and field_name(atomic_op(n)["obj"]) == "lock"]
+        by_one = bool(rmw1) and all(atomic_op(n).get("op") in ("fetch_add", "operator++") and (const_val(atomic_op(n).get("value")) in (1, None)) for n in rmw1)
+        everything = talk + cpos(f, r"^(std::)?exit$") + cpos(f, r"^(std::)?raise$") + cpos(f, r"^alarm$")
+        ok = bool(first_e) and bool(park) and by_one and \
+            not g.exists_path([g.entry_node], park, avoid_edges=[(b2, other_(l2)) for (b2, l2) in first_e]) and \
+            all(not g.exists_path([y for (y, l3) in g.succ.get(tnode(g, b2), ()) if l3 == other_(l2)], everything, avoid_nodes=park) for (b2, l2) in first_e)
+        ctx.ob("C07.R4n", site + ":later-entrants-parked", ok,
+               "the entry counter is incremented by one; a thread that did not find it at 0 is parked (pause) before it can reach the alarm, "
+               "the logging, exit or raise, and only such a thread is parked", fn=f)
+        # R4q: a handled crash signal ends the process the way the user asked: re-raised exactly on the 'should re-raise' outcome
+        rr = [vid for vid, i in inits.items() if isnode(i) and any((atomic_op(x) or {}).get("kind") == "load" and field_name(atomic_op(x)["obj"]) == "should_reraise_signal" for x in walk(i))]
+        rr_e = []
+        for b2, blk in g.blocks.items():
+            c = g.term_cond(b2)
+            if c is None:
+                continue
+            core, neg = core_and_neg(c)
+            if rr and var_ref(strip(core, casts=True)) in rr:
+                rr_e.append((b2, "F" if neg else "T"))
+        all_r = cpos(f, r"^(std::)?raise$")
+        ok = bool(rr_e) and bool(all_r) and not g.exists_path([g.entry_node], all_r, avoid_edges=rr_e) and \
+            all(not g.exists_path([y for (y, l3) in g.succ.get(tnode(g, b2), ()) if l3 == l2], [g.exit_node], avoid_nodes=all_r + cpos(f, r"^(std::)?exit$")) for (b2, l2) in rr_e)
+        ctx.ob("C07.R4q", site + ":reraised-iff-asked", ok,
+               "std::raise is reached only through the 'should re-raise' outcome, and from that outcome every path ends in std::raise "
+               "(%d test(s))" % len(rr_e), fn=f)
+        # R4o: the alarm's handler re-raises the signal that is being handled: its number is recorded before the alarm is armed
+        rec = npos(f, [n for n in f.walk() if (atomic_op(n) or {}).get("kind") == "store" and field_name(atomic_op(n)["obj"]) == "signal_number" and
+                       var_ref(strip(atomic_op(n).get("value"), casts=True)) == sigp])
+        alp = cpos(f, r"^alarm$")
+        ctx.ob("C07.R4o", site + ":signal-recorded-before-alarm", bool(rec) and bool(alp) and all(g.dominates(rec, p) for p in alp),
+               "the handled signal's number is stored for the timeout handler before the alarm is armed (on_alarm restores the default action "
+               "for that number and raises it)", fn=f)
         ok = bool(logs) and not g.exists_path(flush, logs) and all(g.exists_path(logs, [p]) for p in flush)
         ctx.ob("C07.R4b", site + ":notice-before-flush", ok,
                "the handler's notice is logged before the flush and nothing is logged after it", fn=f)
@@ -336,6 +412,26 @@ def r4(ctx, facts, cfg):
     rp = cpos(oa, r"^(std::)?raise$")
     ctx.ob("C07.R4i", "on_alarm:default-then-raise", bool(sd) and bool(rp) and all(g.dominates(sd, p) for p in rp),
            "the timeout handler restores the default action and re-raises", fn=oa)
+    # R4p: ... for the recorded signal; its own number is recorded exactly when none was (SIGALRM arrived first)
+    def of_recorded(c):
+        return any(x["k"] == "MemberExpr" and x.get("mname") == "signal_number" for x in walk(c["args"][0]))
+    sc_ = [c for c in oa.calls(r"^(std::)?signal$") if is_null(c["args"][1])] + oa.calls(r"^(std::)?raise$")
+    ownp = oa.rec["params"][0]["did"]
+    recs = [n for n in oa.walk() if ((atomic_op(n) or {}).get("kind") == "store" and field_name(atomic_op(n)["obj"]) == "signal_number" and
+                                     var_ref(strip(atomic_op(n).get("value"), casts=True)) == ownp)]
+    zero_e = []
+    for b2, blk in g.blocks.items():
+        c = g.term_cond(b2)
+        nc = norm_cmp(c) if c is not None else None
+        if nc and nc[0] in ("==", "!=") and any(x["k"] == "MemberExpr" and x.get("mname") == "signal_number" for x in walk(c)) and "0" in (nc[1], nc[2]):
+            zero_e.append((b2, "T" if nc[0] == "==" else "F"))
+    rp_ = npos(oa, recs)
+    ok = bool(sc_) and all(of_recorded(c) for c in sc_) and bool(recs) and bool(zero_e) and \
+        not g.exists_path([g.entry_node], rp_, avoid_edges=zero_e) and \
+        all(not g.exists_path([y for (y, l3) in g.succ.get(tnode(g, b2), ()) if l3 == l2], sd + rp, avoid_nodes=rp_) for (b2, l2) in zero_e)
+    ctx.ob("C07.R4p", "on_alarm:raises-the-recorded-signal", ok,
+           "the default action is restored and the signal raised for the recorded number; the alarm's own number is recorded exactly on the "
+           "'none recorded yet' outcome", fn=oa)
     # R4k: the handler finds a logger whenever one exists: the named logger is used only when it was found valid, every other path
     # falls back to any valid logger
     gl = facts.need("quill::detail::SignalHandlerContext::get_logger", cfg)[0]
@@ -371,3 +467,42 @@ def r4(ctx, facts, cfg):
     ctx.ob("C07.R4j", "SignalHandlerOptions::catchable_signals:default-list", vals == want,
            "the default catchable signals are exactly SIGSEGV, SIGABRT, SIGFPE, SIGILL, SIGINT, SIGTERM (found %s)" % sorted(vals),
            loc=fld[0]["loc"] if fld else "")
+
+
+
+def r6_api_layer(ctx, facts, cfg):
+    """R6: the public entry points are what they say. Backend::stop() reaches BackendManager::stop_backend_thread() and that reaches
+    BackendWorker::stop(); start_backend_thread() hands the options to BackendWorker::run(); ManualBackendWorker::init() hands its
+    options to _init(); poll() keeps calling poll_one() until the emptiness test says everything was processed (the timed form leaves
+    early only on 'timeout exceeded')."""
+    from rules.common import forwards
+    forwards(ctx, facts, cfg, "C07.R6a", "quill::Backend::stop", r"BackendManager::stop_backend_thread$",
+             "Backend::stop() calls BackendManager::stop_backend_thread() on every path")
+    forwards(ctx, facts, cfg, "C07.R6a", "quill::detail::BackendManager::stop_backend_thread", r"BackendWorker::stop$",
+             "stop_backend_thread() calls BackendWorker::stop() on every path", obj_field="_backend_worker")
+    forwards(ctx, facts, cfg, "C07.R6a", "quill::detail::BackendManager::start_backend_thread", r"BackendWorker::run$",
+             "start_backend_thread() hands its options to BackendWorker::run() on every path", param_idx=0, obj_field="_backend_worker")
+    forwards(ctx, facts, cfg, "C07.R6a", "quill::ManualBackendWorker::init", r"BackendWorker::_init$",
+             "ManualBackendWorker::init() hands its options to BackendWorker::_init() on every path", param_idx=0)
+    for f in facts.need("quill::ManualBackendWorker::poll", cfg, floor=2):
+        g = f.g
+        timed = bool(f.rec.get("params"))
+        loops = [n for n in f.walk() if n["k"] in ("WhileStmt", "DoStmt", "ForStmt")]
+        po = cpos(f, r"ManualBackendWorker::poll_one$")
+        empt = branches_on_call(f, r"::_check_frontend_queues_and_cached_transit_events_empty$")
+        ok = len(loops) == 1 and bool(po) and bool(empt) and all(in_subtree(c, loops[0].get("body")) for c in f.calls(r"ManualBackendWorker::poll_one$"))
+        # the function is left only through the 'empty' outcome ... or, in the timed form, through 'elapsed > timeout'
+        leave = list((b, t) for (b, t, c) in empt)
+        if timed:
+            for bid, b in g.blocks.items():
+                c = g.term_cond(bid)
+                from rules.common import rel_kind
+                rk = rel_kind(c) if c is not None else None
+                pd = f.rec["params"][0]["did"]
+                if rk and ((rk[0] in (">", ">=") and any(var_ref(x) == pd for x in walk(rk[2])) and not any(var_ref(x) == pd for x in walk(rk[1]))) or
+                           (rk[0] in ("<", "<=") and any(var_ref(x) == pd for x in walk(rk[1])) and not any(var_ref(x) == pd for x in walk(rk[2])))):
+                    leave.append((bid, "T"))           # elapsed > timeout
+        ok = ok and not g.exists_path([g.entry_node], [g.exit_node], avoid_edges=leave) and \
+            all(not g.exists_path([y for (y, l3) in g.succ.get(tnode(g, b), ()) if l3 == other_(t)], [g.exit_node] + [tnode(g, b)], avoid_nodes=po) for (b, t, c) in empt)
+        ctx.ob("C07.R6b", "ManualBackendWorker::poll%s:until-empty" % ("(timeout)" if timed else ""), ok,
+               "polling continues — one poll_one() per round — until the emptiness test holds%s" % (" or the timeout was exceeded" if timed else ""), fn=f)
